@@ -68,7 +68,10 @@ class Properties:
 
     def __call__(self, value):
         value = {
-            **{prop.name: NotPassed() for prop in self.props.values()},
+            **{
+                prop.source or prop.name: NotPassed()
+                for prop in self.props.values()
+            },
             **value,
         }
         return {
